@@ -276,6 +276,18 @@ theorem C06_macro_as_variable_rejected (n : String) (st : St)
     assignable n st = .fail (st.addError ("Attempt to assign to constant \"" ++ n ++ "\"")) := by
   simp [assignable, getSt_bind, hm, triggerError]
 
+/-- `stage` takes rows and columns, never a block (only `set` names the light a block's result
+goes to): wherever `stage` is allowed — in a routine body or a matrix block —, `stage begin` is
+rejected.  (Before repository commit 09e1e7b the block was compiled and followed by a COLOR
+instruction with no operand loaded: `define f begin stage begin end end f` stopped the machine
+with `KeyError: Operand.NULL`.) -/
+theorem C06_stage_block_rejected (f : Nat) (st : St) (t : Tok) (r : List Tok)
+    (hc : st.cur.ty = .stage) (hr : st.rest = t :: r) (ht : t.ty = .begin_) :
+    action (f + 1) .color st =
+      .fail (({ st with opCode := .color, cur := t, rest := r } : St).addError
+        "Nesting not allowed here.") := by
+  simp [action, getSt, bind_run, modifySt, hc, skipToken, advance, hr, ht, triggerError, pure_run]
+
 /-- a routine definition inside a routine body is rejected -/
 theorem C06_nested_define_rejected (name : String) (body : M Unit) (st : St)
     (hd : st.detectRoutineStart = true) (hr : st.alreadyDefined name = false)
